@@ -104,7 +104,7 @@ TYPED_ZOO = {
     "str": ["str_subclass", "str_surrogate", "str_nul", "str_long", "empty_str"],
     "bytes": ["bytes_subclass", "bytes_long", "bytearray", "memoryview"],
     "list": ["list_subclass", "list_nested", "empty_list", "tuple", "range", "list_1001_strs", "userlist"],
-    "dict": ["dict_subclass", "ordereddict", "defaultdict", "dict_nonstr_keys", "empty_dict", "dict_twin_nan_keys",
+    "dict": ["dict_subclass", "ordereddict", "defaultdict", "dict_nonstr_keys", "empty_dict", "dict_twin_nan_keys", "dict_ellipsis_key", "dict_ellipsis_entry",
              "dict_1001_keys", "mappingproxy", "userdict", "chainmap"],
     "uuid4": ["uuid1", "uuid3", "uuid5", "uuid_nil", "uuid4"],
     "datetime": ["datetime_aware", "datetime_naive", "datetime_min", "datetime_max", "date_max", "time"],
@@ -795,6 +795,9 @@ ZOO = {
     "str_surrogate": lambda: "\ud800", "str_nul": lambda: "a\0b", "str_long": lambda: "x" * 5000,
     "bytes_long": lambda: b"\xff" * 100, "list_nested": lambda: [[[]]],
     "dict_nonstr_keys": lambda: {None: 1, (1, 2): 2, 1.5: 3, b"k": 4, frozenset(): 5},
+    # the Ellipsis object is hashable: it can be a key (or a member) of a *value* too
+    "dict_ellipsis_key": lambda: {"a": 1, ...: 1}, "dict_ellipsis_entry": lambda: {"a": 1, ...: ...},
+    "list_of_ellipsis": lambda: [..., 1, ...],
     "empty_list": lambda: [], "empty_dict": lambda: {}, "empty_str": lambda: "",
     "list_1001_strs": lambda: ["x"] * 1001,
     "dict_1001_keys": lambda: {i: None for i in range(1001)},
